@@ -97,9 +97,10 @@ def run(tier, seed, replay_path=None):
     batches = [("general", start, nseeds - nseeds // 2, njobs, []), ("general-late", start + 300000, nseeds // 2, njobs, ["late"]),
                ("whitespace", start + 500000, nws, 12, ["ws"]), ("pool", start + 700000, npool, 6, ["pool"]),
                # one round per grammar, three threads start the same parses at once (first use of every feature under contention)
-               ("first-use", start + 900000, max(2, nseeds // 2), 0, ["first"]),
+               # (first-use and lock-step rounds cost Miri about 15 s per seed and core: 4 seeds quick, 16 thorough)
+               ("first-use", start + 900000, 4 if tier == "quick" else 16, 0, ["first"]),
                # lock-step rounds: a rendezvous before every parse, every parse a short text that fails somewhere new
-               ("lock-step", start + 1100000, max(2, nseeds // 2), 0, ["lockstep"]),
+               ("lock-step", start + 1100000, 4 if tier == "quick" else 16, 0, ["lockstep"]),
                # tracing rounds: a traced parse a few hundred rule calls deep next to threads that begin and end short traces
                # (every traced line costs Miri tens of milliseconds and megabytes: 45..60 rule calls deep in the quick tier,
                # 262..277 in 4 seeds of the thorough tier, about 2.5 GB each; Miri runs the seeds of one batch inside one process)
